@@ -10,6 +10,13 @@ were not created by the factory can never be minted or burned through it."
 Model: `Model/TokenFactory.lean` (`step`, `run`).  All theorems quantify over every state / every
 operation / every history (lists of `Op`, including the wasm-binding entry points, bank sends and
 fee grants); nothing is bounded.
+
+History-level layer (audit 1): `sumMint` / `sumBurn` / `createdIn` are folds over the op list that look at
+results only; `ghosts_are_history_sums` ties the ghost fields `minted` / `burned` / `created` to them and
+`supply_eq_mints_minus_burns` is stated on them.  Clauses that are FALSE at full strength are proved false
+by reachable witnesses (`supply_clause_needs_empty_start`, `fee_grantee_acts_for_admin`,
+`wasm_mint_credits_third_party`, `mint_burn_touch_only_admin_unrestricted_false`) next to the strongest
+true statement.
 -/
 import PalomaModel.Model.TokenFactory
 
@@ -900,6 +907,166 @@ theorem Inv.run {g st : St} (inv : Inv g st) (ops : List Op) : Inv g (run st ops
   | nil => exact inv
   | cons op ops ih => exact ih (inv.step (r := (Paloma.TokenFactory.step st op).2) rfl)
 
+/-! ### histories: quantities that are functions of the op list alone
+
+`St.minted`, `St.burned` and `St.created` are ghost fields written next to the executable state.  The
+definitions below do not look at them: they fold over the history and consult only the RESULT of
+every operation.  `ghosts_are_history_sums` proves the ghost fields equal to them, and the supply
+clause is stated on them directly. -/
+
+/-- the results of a history run from `st`, one per operation -/
+def results : St → List Op → List Res
+  | _, [] => []
+  | st, op :: ops => (step st op).2 :: results (step st op).1 ops
+
+/-- Σ of the amounts of the SUCCESSFUL mints (message or binding) of `d` in the history -/
+def sumMint (st : St) (d : Denom) : List Op → Nat
+  | [] => 0
+  | op :: ops => (if (step st op).2 = .ok then op.mintAmt d else 0) + sumMint (step st op).1 d ops
+
+/-- Σ of the amounts of the SUCCESSFUL burns (message or binding) of `d` in the history -/
+def sumBurn (st : St) (d : Denom) : List Op → Nat
+  | [] => 0
+  | op :: ops => (if (step st op).2 = .ok then op.burnAmt d else 0) + sumBurn (step st op).1 d ops
+
+/-- the denominations of the SUCCESSFUL create operations of the history, oldest first -/
+def createdIn (st : St) : List Op → List Denom
+  | [] => []
+  | op :: ops => (if (step st op).2 = .ok then op.newDenom.toList else []) ++ createdIn (step st op).1 ops
+
+theorem run_append (st : St) (a b : List Op) : run st (a ++ b) = run (run st a) b := by
+  induction a generalizing st with
+  | nil => rfl
+  | cons x xs ih => simp only [List.cons_append, run]; exact ih _
+
+/-- membership in `createdIn` = a successful create operation for that name somewhere in the history -/
+theorem mem_createdIn {st : St} {ops : List Op} {d : Denom} :
+    d ∈ createdIn st ops ↔
+      ∃ pre op post, ops = pre ++ op :: post ∧ (step (run st pre) op).2 = .ok ∧ op.newDenom = some d := by
+  induction ops generalizing st with
+  | nil => simp [createdIn]
+  | cons o os ih =>
+    simp only [createdIn, List.mem_append]
+    constructor
+    · rintro (h | h)
+      · by_cases hok : (step st o).2 = .ok
+        · rw [if_pos hok] at h
+          exact ⟨[], o, os, rfl, hok, Option.mem_toList.mp h⟩
+        · rw [if_neg hok] at h; cases h
+      · obtain ⟨pre, op, post, rfl, h1, h2⟩ := ih.mp h
+        exact ⟨o :: pre, op, post, rfl, h1, h2⟩
+    · rintro ⟨pre, op, post, heq, h1, h2⟩
+      cases pre with
+      | nil =>
+        simp only [List.nil_append, List.cons.injEq] at heq
+        obtain ⟨rfl, rfl⟩ := heq
+        left
+        have h1' : (step st o).2 = .ok := h1
+        rw [if_pos h1']
+        exact Option.mem_toList.mpr h2
+      | cons p ps =>
+        simp only [List.cons_append, List.cons.injEq] at heq
+        obtain ⟨rfl, rfl⟩ := heq
+        right
+        exact ih.mpr ⟨ps, op, post, rfl, h1, h2⟩
+
+/-- only feegrant `grant` / `revoke` touch the allowance table, and only when they succeed -/
+theorem step_grant {st st' : St} {op : Op} {r : Res} (h : step st op = (st', r)) :
+    st'.grant = st.grant ∨
+    (r = .ok ∧ ∃ c s, (op = .grant c s ∧ st'.grant = updG st.grant c s true) ∨
+                       (op = .revoke c s ∧ st'.grant = updG st.grant c s false)) := by
+  by_cases hr' : r ≠ .ok
+  · left; rw [step_rej h hr']
+  have hr : r = .ok := Classical.not_not.mp hr'
+  subst hr
+  cases op with
+  | mint mode s c d' amt =>
+    obtain ⟨_, _, _, _, _, rfl⟩ := hMint_ok (step_mint_ok h).2.2
+    exact Or.inl rfl
+  | burn mode s c d' amt =>
+    obtain ⟨_, _, _, _, rfl⟩ := hBurn_ok (step_burn_ok h).2.2
+    exact Or.inl rfl
+  | wmint a d' amt to =>
+    obtain ⟨rc, s1, _, _, h1, h2⟩ := wMint_ok h
+    obtain ⟨_, _, _, _, _, rfl⟩ := hMint_ok h1
+    obtain ⟨_, rfl⟩ := bankSend_ok h2
+    exact Or.inl rfl
+  | wburn a d' amt frm =>
+    obtain ⟨_, _, _, _, rfl⟩ := hBurn_ok (wBurn_ok h).2.2
+    exact Or.inl rfl
+  | create mode s c sub =>
+    obtain ⟨_, _, _, _, _, rfl⟩ := hCreate_ok (step_create_ok h).2
+    exact Or.inl rfl
+  | chadmin mode s c d' new =>
+    obtain ⟨_, _, rfl⟩ := hChAdmin_ok (step_chadmin_ok h).2
+    exact Or.inl rfl
+  | setmeta mode s c d' mdOk tag =>
+    obtain ⟨_, _, _, rfl⟩ := hSetMeta_ok (step_setmeta_ok h).2
+    exact Or.inl rfl
+  | wcreate a sub md =>
+    obtain ⟨s1, h1, h2⟩ := wCreate_ok h
+    obtain ⟨_, _, _, _, _, rfl⟩ := hCreate_ok h1
+    rcases h2 with ⟨_, rfl⟩ | ⟨m, _, hm⟩
+    · exact Or.inl rfl
+    · obtain ⟨_, _, _, rfl⟩ := wSetMeta_ok hm
+      exact Or.inl rfl
+  | wchadmin a d' new =>
+    obtain ⟨n, _, hn⟩ := wChAdmin_ok h
+    obtain ⟨_, _, rfl⟩ := hChAdmin_ok hn
+    exact Or.inl rfl
+  | wsetmeta a d' base body mdOk tag =>
+    obtain ⟨_, _, _, rfl⟩ := wSetMeta_ok h
+    exact Or.inl rfl
+  | send a b d' amt =>
+    obtain ⟨_, _, _, rfl⟩ := txSend_ok h
+    exact Or.inl rfl
+  | grant c s =>
+    rcases txGrant_cases h with ⟨_, hx⟩ | ⟨_, rfl⟩
+    · exact absurd rfl hx
+    · exact Or.inr ⟨rfl, c, s, Or.inl ⟨rfl, rfl⟩⟩
+  | revoke c s =>
+    rcases txRevoke_cases h with ⟨_, hx⟩ | ⟨_, rfl⟩
+    · exact absurd rfl hx
+    · exact Or.inr ⟨rfl, c, s, Or.inr ⟨rfl, rfl⟩⟩
+  | setfee n =>
+    simp only [step, Prod.mk.injEq, and_true] at h
+    subst h
+    exact Or.inl rfl
+
+theorem updG_true {f : Addr → Addr → Bool} {c s x y : Addr} (h : updG f c s true x y = true) :
+    f x y = true ∨ (x = c ∧ y = s) := by
+  unfold updG at h
+  split at h
+  · right; assumption
+  · left; exact h
+
+theorem updG_false {f : Addr → Addr → Bool} {c s x y : Addr} (h : updG f c s false x y = true) :
+    f x y = true := by
+  unfold updG at h
+  split at h
+  · simp at h
+  · exact h
+
+/-- an allowance that is in the table was there at the start, or a successful `grant` put it there -/
+theorem grant_from_history (st : St) (ops : List Op) (c s : Addr) (h : (run st ops).grant c s = true) :
+    st.grant c s = true ∨
+    ∃ pre post, ops = pre ++ Op.grant c s :: post ∧ (step (run st pre) (.grant c s)).2 = .ok := by
+  induction ops generalizing st with
+  | nil => exact Or.inl h
+  | cons o os ih =>
+    rcases ih (step st o).1 h with h1 | ⟨pre, post, rfl, hok⟩
+    · rcases step_grant (st := st) (op := o) (st' := (step st o).1) (r := (step st o).2) rfl with hg | ⟨hr, c', s', hg | hg⟩
+      · left; rw [← hg]; exact h1
+      · obtain ⟨rfl, hg⟩ := hg
+        rw [hg] at h1
+        rcases updG_true h1 with h2 | ⟨rfl, rfl⟩
+        · exact Or.inl h2
+        · exact Or.inr ⟨[], os, rfl, hr⟩
+      · obtain ⟨rfl, hg⟩ := hg
+        rw [hg] at h1
+        exact Or.inl (updG_false h1)
+    · exact Or.inr ⟨o :: pre, post, rfl, hok⟩
+
 end Lemmas
 
 /-! ## Property theorems -/
@@ -1495,28 +1662,78 @@ theorem ghost_counts_successes {st st' : St} {op : Op} {r : Res} (h : step st op
     subst h
     exact ⟨by simp [Op.mintAmt], by simp [Op.burnAmt], by simp [Op.newDenom, Op.creates]⟩
 
+/-- **supply_eq_mints_minus_burns**, the ghost fields are functions of the history.  Over every
+history from every state, `minted d` / `burned d` grow by exactly the sum of the amounts of the
+successful mints / burns of `d` in the op list (`sumMint`, `sumBurn`: folds over the history that look
+at results only), and `created` grows by exactly the denominations of the successful creates, newest
+first (`createdIn`).  From a genesis state the ghosts start at 0 / `[]`, so they ARE these sums. -/
+theorem ghosts_are_history_sums (st : St) (ops : List Op) (d : Denom) :
+    (run st ops).minted d = st.minted d + sumMint st d ops ∧
+    (run st ops).burned d = st.burned d + sumBurn st d ops ∧
+    (run st ops).created = (createdIn st ops).reverse ++ st.created := by
+  induction ops generalizing st with
+  | nil => simp [run, sumMint, sumBurn, createdIn]
+  | cons op ops ih =>
+    obtain ⟨h1, h2, h3⟩ :=
+      ghost_counts_successes (st := st) (op := op) (st' := (step st op).1) (r := (step st op).2) rfl d
+    obtain ⟨i1, i2, i3⟩ := ih (step st op).1
+    simp only [run, sumMint, sumBurn, createdIn]
+    refine ⟨by rw [i1, h1, Nat.add_assoc], by rw [i2, h2, Nat.add_assoc], ?_⟩
+    rw [i3, h3]
+    by_cases hok : (step st op).2 = .ok
+    · simp only [hok, if_true, List.reverse_append, List.append_assoc]
+      cases op.newDenom <;> simp
+    · simp [hok]
+
 /-- **supply_eq_mints_minus_burns** ("the token's total supply always equals the sum of successful
-mints minus the sum of successful burns").  For every history of operations from any bank state
-with an empty factory, and every denomination: `supply = supply₀ + minted − burned` (written
-without subtraction), where `minted` / `burned` are the sums of the successful mints / burns
-(`ghost_counts_successes`).  For a denomination created through the factory `supply₀ = 0`, provided
-the bank did not already hold coins under a factory-shaped name at genesis (`hclean`), hence
-`supply = minted − burned`. -/
+mints minus the sum of successful burns").  For every history `ops` of operations (any accounts, any
+denominations, messages and bindings, successes and failures) from any bank state with an empty
+factory, and every denomination `d`:
+
+  `supply d  +  Σ successful burns of d in ops  =  supply₀ d  +  Σ successful mints of d in ops`
+
+where the two sums are `sumBurn` / `sumMint`, plain folds over the op list (no ghost state), and
+`supply₀` is the bank's supply at genesis.  Hence, whenever the bank held no coins under the name
+`d` before the history (`supply₀ d = 0`, pointwise, for this `d` only), the burns never exceed the
+mints and `supply d = Σ mints − Σ burns`.
+
+ASSUMPTION (external, on the start state): `supply₀ d = 0`.  It cannot be dropped — see
+`supply_clause_needs_empty_start` — because `validateCreateDenom` checks `HasSupply(subdenom)`, not
+`HasSupply(factory/c/subdenom)`: coins that another module (or the genesis file) put under a
+factory-shaped name stay in the supply of the token created later under that name. -/
 theorem supply_eq_mints_minus_burns (bal : Addr → Denom → Nat) (supply : Denom → Nat)
     (dmeta : Denom → Option Nat) (fee : Nat) (ops : List Op) (d : Denom) :
-    let st := run (St.genesis bal supply dmeta fee) ops
-    st.supply d + st.burned d = supply d + st.minted d ∧
-    ((∀ x, (deconstruct x).isSome = true → supply x = 0) → d ∈ st.created →
-      st.supply d + st.burned d = st.minted d ∧ st.burned d ≤ st.minted d) := by
-  intro st
-  have inv : Inv (St.genesis bal supply dmeta fee) st := (Inv.genesis bal supply dmeta fee).run ops
-  have hl := inv.ledger d
-  refine ⟨hl, ?_⟩
-  intro hclean hmem
-  obtain ⟨c, sub, _, hdec⟩ := inv.createdNs d hmem
-  have h0 : supply d = 0 := hclean d (by simp [hdec])
-  have hl' : st.supply d + st.burned d = supply d + st.minted d := hl
+    let g := St.genesis bal supply dmeta fee
+    let st := run g ops
+    st.supply d + sumBurn g d ops = supply d + sumMint g d ops ∧
+    (supply d = 0 → sumBurn g d ops ≤ sumMint g d ops ∧ st.supply d = sumMint g d ops - sumBurn g d ops) ∧
+    st.minted d = sumMint g d ops ∧ st.burned d = sumBurn g d ops := by
+  intro g st
+  have inv : Inv g st := (Inv.genesis bal supply dmeta fee).run ops
+  have hl : st.supply d + st.burned d = supply d + st.minted d := inv.ledger d
+  obtain ⟨hm, hb, _⟩ := ghosts_are_history_sums g ops d
+  have hm' : st.minted d = sumMint g d ops := by
+    rw [show st.minted d = (run g ops).minted d from rfl, hm]; simp [g, St.genesis]
+  have hb' : st.burned d = sumBurn g d ops := by
+    rw [show st.burned d = (run g ops).burned d from rfl, hb]; simp [g, St.genesis]
+  rw [hm', hb'] at hl
+  refine ⟨hl, ?_, hm', hb'⟩
+  intro h0
   omega
+
+/-- **supply_eq_mints_minus_burns**, per created token: a denomination is on the factory's list
+exactly when a successful create operation for it occurs in the history; from that operation on
+its supply moves only by its admin's mints and burns (`supply_changes_only_by_admin`), and before
+it the supply is the untouched genesis supply (`non_factory_supply_constant`). -/
+theorem created_iff_successful_create (bal : Addr → Denom → Nat) (supply : Denom → Nat)
+    (dmeta : Denom → Option Nat) (fee : Nat) (ops : List Op) (d : Denom) :
+    let g := St.genesis bal supply dmeta fee
+    d ∈ (run g ops).created ↔
+      ∃ pre op post, ops = pre ++ op :: post ∧ (step (run g pre) op).2 = .ok ∧ op.newDenom = some d := by
+  intro g
+  rw [(ghosts_are_history_sums g ops d).2.2]
+  simp only [g, St.genesis, List.append_nil, List.mem_reverse]
+  exact mem_createdIn
 
 /-- **namespace** ("a creator can only create denominations inside its own factory/<creator>/
 namespace").  A successful create by `c` (message or wasm binding) with subdenom `sub` creates
@@ -1753,6 +1970,176 @@ by the ante chain, by the handler, or aborted by an arithmetic panic — leaves 
 theorem failed_op_is_noop (st : St) (op : Op) (h : (step st op).2 ≠ .ok) : (step st op).1 = st :=
   step_rej (st' := (step st op).1) (r := (step st op).2) rfl h
 
+/-! ### history level: who acted, on whose authority -/
+
+/-- **only_admin_acts**, rejection branch.  An admin action (mint, burn, change-admin, set-metadata,
+message or binding) attempted for an account that is NOT the current admin of the denomination —
+including every denomination without admin: never created, native, malformed, renounced — is
+rejected and changes nothing. -/
+theorem non_admin_rejected {st st' : St} {op : Op} {r : Res} {c : Addr} {d : Denom}
+    (h : step st op = (st', r)) (ha : op.adminAct = some (c, d)) (hn : st.admin d ≠ some c) :
+    r ≠ .ok ∧ st' = st := by
+  have hr : r ≠ .ok := by
+    intro hr; subst hr
+    exact hn (only_admin_acts h ha)
+  exact ⟨hr, step_rej h hr⟩
+
+/-- **only_admin_acts**, rejection branch of the authentication: a tokenfactory transaction that
+names `c` as creator but is signed by `s ≠ c` to whom `c` has NOT granted a fee allowance is rejected
+and changes nothing — whatever `c` is admin of. -/
+theorem stranger_rejected {st st' : St} {op : Op} {r : Res} {s c : Addr}
+    (h : step st op = (st', r)) (hs : op.signed = some (s, c)) (hne : s ≠ c) (hg : st.grant c s = false) :
+    r ≠ .ok ∧ st' = st := by
+  have hr : r ≠ .ok := by
+    intro hr; subst hr
+    rcases signer_authorised h hs with h1 | h1
+    · exact hne h1
+    · rw [hg] at h1; cases h1
+  exact ⟨hr, step_rej h hr⟩
+
+/-- **only_admin_acts** over histories ("for every token created through the token factory, only its
+current admin can mint it, burn it, change its metadata or hand the admin role to someone else").
+Take any history from any bank state with an empty factory, cut it anywhere (`pre`), and let the
+next operation be a SUCCESSFUL admin action on `d` for the account `c`.  Then
+
+* `c` is the admin of `d` at that moment;
+* `d` was created through the factory: a successful create operation for exactly `d` occurs in `pre`;
+* if the action is a transaction (not a binding call by the contract `c` itself) signed by `s`, then
+  `s = c`, or `pre` contains a successful feegrant `grant c s` — an allowance granted BY THE ADMIN
+  ITSELF to `s` (Paloma's delegation rule in `VerifyAuthorisedSignatureDecorator`).
+
+ASSUMPTIONS (SDK / wasmd): a transaction's signer is authenticated by signature verification, a
+binding call's `contractAddr` is the calling contract, `MsgGrantAllowance` is signed by the granter. -/
+theorem only_admin_acts_history (bal : Addr → Denom → Nat) (supply : Denom → Nat)
+    (dmeta : Denom → Option Nat) (fee : Nat) (pre : List Op) (op : Op) (c : Addr) (d : Denom) :
+    let g := St.genesis bal supply dmeta fee
+    (step (run g pre) op).2 = .ok → op.adminAct = some (c, d) →
+      (run g pre).admin d = some c ∧
+      (∃ p1 opc p2, pre = p1 ++ opc :: p2 ∧ (step (run g p1) opc).2 = .ok ∧ opc.newDenom = some d) ∧
+      (∀ s, op.signed = some (s, c) →
+        s = c ∨ ∃ p1 p2, pre = p1 ++ Op.grant c s :: p2 ∧ (step (run g p1) (.grant c s)).2 = .ok) := by
+  intro g hok ha
+  have hstep : step (run g pre) op = ((step (run g pre) op).1, .ok) := by rw [← hok]
+  have hadm := only_admin_acts hstep ha
+  have inv : Inv g (run g pre) := (Inv.genesis bal supply dmeta fee).run pre
+  refine ⟨hadm, ?_, ?_⟩
+  · exact (created_iff_successful_create bal supply dmeta fee pre d).mp (inv.adminCreated d c hadm)
+  · intro s hs
+    rcases signer_authorised hstep hs with h1 | h1
+    · exact Or.inl h1
+    · rcases grant_from_history g pre c s h1 with h2 | h2
+      · simp [g, St.genesis] at h2
+      · exact Or.inr h2
+
+/-- **only_admin_acts**, grant-free corollary: as long as the admin `c` of `d` has never issued a
+fee allowance (`pre` contains no `grant c _` operation at all), every successful mint / burn /
+change-admin / set-metadata transaction on `d` in the history is signed by `c` in person. -/
+theorem only_admin_signs_without_grants (bal : Addr → Denom → Nat) (supply : Denom → Nat)
+    (dmeta : Denom → Option Nat) (fee : Nat) (pre : List Op) (op : Op) (s c : Addr) (d : Denom) :
+    let g := St.genesis bal supply dmeta fee
+    (step (run g pre) op).2 = .ok → op.adminAct = some (c, d) → op.signed = some (s, c) →
+      (∀ x, Op.grant c x ∉ pre) → s = c ∧ (run g pre).admin d = some s := by
+  intro g hok ha hs hng
+  obtain ⟨hadm, _, hsig⟩ := only_admin_acts_history bal supply dmeta fee pre op c d hok ha
+  rcases hsig s hs with h1 | ⟨p1, p2, rfl, _⟩
+  · exact ⟨h1, by rw [h1]; exact hadm⟩
+  · exact absurd (by simp) (hng s)
+
+/-- **mint_burn_touch_only_admin** at full strength, for the entry points where it holds: the mint
+message, the burn message, the wasm burn binding, and the wasm mint binding whose `mint_to_address`
+is the contract itself.  A successful mint or burn of `d` by its admin `c` changes NO balance other
+than `c`'s own balance of `d`.
+
+The unrestricted statement (drop `hto`) is FALSE for the wasm mint binding — see
+`wasm_mint_credits_third_party` for the reachable counterexample and
+`wasm_mint_is_mint_then_own_transfer` / `mint_burn_touch_only_admin` for what holds instead. -/
+theorem mint_burn_touch_only_admin_strict {st st' : St} {op : Op} {c : Addr} {d : Denom}
+    (h : step st op = (st', .ok)) (ha : op.adminAct = some (c, d)) (hmb : op.mintBurnDenom = some d)
+    (hto : op.mintTo = none ∨ op.mintTo = some c) :
+    ∀ a x, ¬ (a = c ∧ x = d) → st'.bal a x = st.bal a x := by
+  intro a x hax
+  apply mint_burn_touch_only_admin h ha hmb a x
+  rintro ⟨hx, hac | hm⟩
+  · exact hax ⟨hac, hx⟩
+  · rcases hto with hto | hto
+    · rw [hto] at hm; cases hm
+    · rw [hto] at hm
+      simp only [Option.some.injEq] at hm
+      exact hax ⟨hm.symm, hx⟩
+
+/-! ### history level: existence and renunciation are permanent -/
+
+/-- **no_recreate** over histories: bank metadata (= existence of a denomination) never disappears,
+whatever operations follow. -/
+theorem existence_is_permanent (st : St) (ops : List Op) (d : Denom) (h : (st.dmeta d).isSome = true) :
+    ((run st ops).dmeta d).isSome = true := by
+  induction ops generalizing st with
+  | nil => exact h
+  | cons op ops ih =>
+    exact ih (step st op).1
+      ((no_recreate (st := st) (op := op) (st' := (step st op).1) (r := (step st op).2) rfl).2 d h)
+
+/-- **no_recreate** over histories, operational form ("an existing denomination can never be created
+again"): once a create operation for `d` has succeeded, then after ANY further history every create
+operation aimed at the same name — by the same creator or through the other entry point — is
+rejected and changes nothing. -/
+theorem second_create_fails (st : St) (op1 : Op) (mid : List Op) (op2 : Op) (d : Denom)
+    (h1 : (step st op1).2 = .ok) (hd1 : op1.newDenom = some d) (hd2 : op2.newDenom = some d) :
+    let s2 := run (step st op1).1 mid
+    (step s2 op2).2 ≠ .ok ∧ (step s2 op2).1 = s2 := by
+  intro s2
+  obtain ⟨⟨c1, sub1⟩, hc1, hdd1⟩ : ∃ p, op1.creates = some p ∧ tokenDenom p.1 p.2 = d := by
+    simp only [Op.newDenom, Option.map_eq_some_iff] at hd1
+    exact hd1
+  obtain ⟨⟨c2, sub2⟩, hc2, hdd2⟩ : ∃ p, op2.creates = some p ∧ tokenDenom p.1 p.2 = d := by
+    simp only [Op.newDenom, Option.map_eq_some_iff] at hd2
+    exact hd2
+  have hstep1 : step st op1 = ((step st op1).1, .ok) := by rw [← h1]
+  have hex : ((step st op1).1.dmeta d).isSome = true := by
+    have := (namespace_of_create hstep1 hc1).2.2.2.1
+    rwa [hdd1] at this
+  have hex2 : (s2.dmeta (tokenDenom c2 sub2)).isSome = true := by
+    rw [hdd2]; exact existence_is_permanent _ mid d hex
+  exact (no_recreate (st := s2) (op := op2) (st' := (step s2 op2).1) (r := (step s2 op2).2) rfl).1 c2 sub2 hc2 hex2
+
+/-- **only_admin_acts**, renounced for ever.  Once an existing denomination has no admin (its admin
+renounced through `ChangeAdmin` to the empty string — or it is a native denomination with bank
+metadata), then over EVERY further history: it never has an admin again, its supply never changes,
+and every mint / burn / change-admin / set-metadata aimed at it, by anybody, is rejected. -/
+theorem renounced_forever (st : St) (d : Denom) (hnone : st.admin d = none)
+    (hex : (st.dmeta d).isSome = true) (ops : List Op) :
+    (run st ops).admin d = none ∧ (run st ops).supply d = st.supply d ∧
+    ∀ pre op post c, ops = pre ++ op :: post → op.adminAct = some (c, d) →
+      (step (run st pre) op).2 ≠ .ok ∧ (step (run st pre) op).1 = run st pre := by
+  have key : ∀ (ops : List Op) (st : St), st.admin d = none → (st.dmeta d).isSome = true →
+      (run st ops).admin d = none ∧ (run st ops).supply d = st.supply d := by
+    intro ops
+    induction ops with
+    | nil => intro st h _; exact ⟨h, rfl⟩
+    | cons op ops ih =>
+      intro st hn hx
+      have hstep : step st op = ((step st op).1, (step st op).2) := rfl
+      have hadm : (step st op).1.admin d = none := by
+        apply Classical.byContradiction
+        intro hne
+        have hne' : (step st op).1.admin d ≠ st.admin d := by rw [hn]; exact hne
+        rcases admin_meta_change_only_by_admin_or_create hstep (Or.inl hne') with ⟨c, ha, _⟩ | ⟨_, _, _, _, hm, _⟩
+        · rw [hn] at ha; cases ha
+        · rw [hm] at hx; cases hx
+      have hsup : (step st op).1.supply d = st.supply d := by
+        apply Classical.byContradiction
+        intro hne
+        obtain ⟨c, ha, _⟩ := supply_changes_only_by_admin hstep hne
+        rw [hn] at ha; cases ha
+      have hx' := (no_recreate hstep).2 d hx
+      obtain ⟨i1, i2⟩ := ih (step st op).1 hadm hx'
+      exact ⟨i1, by rw [show run st (op :: ops) = run (step st op).1 ops from rfl, i2, hsup]⟩
+  refine ⟨(key ops st hnone hex).1, (key ops st hnone hex).2, ?_⟩
+  intro pre op post c _ ha
+  have hn := (key pre st hnone hex).1
+  exact non_admin_rejected (st := run st pre) (op := op) (st' := (step (run st pre) op).1)
+    (r := (step (run st pre) op).2) rfl ha (by rw [hn]; simp)
+
 /-! ## Non-vacuity -/
 
 section Examples
@@ -1809,6 +2196,77 @@ example : (∀ x, (deconstruct x).isSome = true → (fun d => if d = exU then 60
   by_cases h : x = exU
   · subst h; simp [show deconstruct exU = none by decide] at hx
   · simp [h]
+
+/-- the history sums on the example history, and the supply equation through `run` -/
+example : sumMint exG exD exOps = 79 ∧ sumBurn exG exD exOps = 30 ∧ createdIn exG exOps = [exD] ∧
+    (run exG exOps).supply exD = sumMint exG exD exOps - sumBurn exG exD exOps := by decide
+example : results exG exOps = exResults exG exOps := by decide
+
+/-- **supply_eq_mints_minus_burns**, the start-state assumption is necessary.  If the bank already
+holds 5 coins under the (not yet created) name `factory/0/foo`, `create` still succeeds
+(`validateCreateDenom` only looks at `HasSupply("foo")`), and after a mint of 7 the supply is 12 while
+Σ mints − Σ burns = 7.  Reproduced on the implementation (Props/C16.md, observation 2). -/
+theorem supply_clause_needs_empty_start :
+    let g := St.genesis (fun _ _ => 0) (fun d => if d = exD then 5 else 0) (fun _ => none) 0
+    let ops : List Op := [.create 0 0 0 [.txt "foo"], .mint 0 0 0 exD 7]
+    results g ops = [.ok, .ok] ∧ exD ∈ (run g ops).created ∧
+    (run g ops).supply exD = 12 ∧ sumMint g exD ops - sumBurn g exD ops = 7 := by decide
+
+/-- **only_admin_acts**, what the strict reading ("signed by the admin in person") misses: an account
+the admin has granted a fee allowance to — 1 here, admin is 0 — signs a successful mint for the admin
+and can hand the admin role to itself; after the admin revokes the allowance the same transaction is
+rejected.  This is `VerifyAuthorisedSignatureDecorator`'s delegation rule, exercised on the
+implementation by the harness (`mode 0`, signer ≠ creator). -/
+theorem fee_grantee_acts_for_admin :
+    let pre : List Op := [.create 0 0 0 [.txt "foo"], .grant 0 1]
+    (run exG pre).admin exD = some 0 ∧
+    (step (run exG pre) (.mint 0 1 0 exD 5)).2 = .ok ∧
+    (step (run exG pre) (.chadmin 0 1 0 exD (.addr 1))).2 = .ok ∧
+    (step (run exG pre) (.chadmin 0 1 0 exD (.addr 1))).1.admin exD = some 1 ∧
+    (step (run exG (pre ++ [.revoke 0 1])) (.mint 0 1 0 exD 5)).2 = .rej .other ∧
+    (step (run exG [.create 0 0 0 [.txt "foo"]]) (.mint 0 1 0 exD 5)).2 = .rej .other := by decide
+
+/-- **mint_burn_touch_only_admin**, the wasm mint binding really credits somebody else.  Reachable
+from genesis: contract/admin 0 calls `mint_tokens` with `mint_to_address = 3`; the balance of 3 grows
+by 4 and the admin's own balance does not move.  The recipient may even be a module account on the
+bank's block list (`poolAcc`, `moduleAcc`), to which a bank `MsgSend` of the same coins is refused:
+`PerformMint` calls `bank.SendCoins` directly.  Reproduced on the implementation by the harness
+(`wmint … @3`, `@100`, `@101`; Props/C16.md, observation 1). -/
+theorem wasm_mint_credits_third_party :
+    let st := run exG [.create 0 0 0 [.txt "foo"]]
+    st.admin exD = some 0 ∧
+    (step st (.wmint 0 exD 4 (.addr 3))).2 = .ok ∧
+    (step st (.wmint 0 exD 4 (.addr 3))).1.bal 3 exD = st.bal 3 exD + 4 ∧
+    (step st (.wmint 0 exD 4 (.addr 3))).1.bal 0 exD = st.bal 0 exD ∧
+    blocked poolAcc = true ∧ (step st (.wmint 0 exD 4 (.addr poolAcc))).2 = .ok ∧
+    (step st (.wmint 0 exD 4 (.addr poolAcc))).1.bal poolAcc exD = 4 ∧
+    (step st (.wmint 0 exD 4 (.addr moduleAcc))).2 = .ok ∧
+    (step (step st (.mint 0 0 0 exD 4)).1 (.send 0 poolAcc exD 4)).2 = .rej .blocked := by decide
+
+/-- … hence the clause "minting and burning only ever touch the admin's own balance", read over all
+four entry points without the `mint_to_address` restriction, is FALSE in the model and in the
+implementation. -/
+theorem mint_burn_touch_only_admin_unrestricted_false :
+    ¬ ∀ (st st' : St) (op : Op) (c : Addr) (d : Denom), step st op = (st', .ok) → op.adminAct = some (c, d) →
+        op.mintBurnDenom = some d → ∀ a x, ¬ (a = c ∧ x = d) → st'.bal a x = st.bal a x := by
+  intro H
+  have h := H (run exG [.create 0 0 0 [.txt "foo"]])
+    (step (run exG [.create 0 0 0 [.txt "foo"]]) (.wmint 0 exD 4 (.addr 3))).1
+    (.wmint 0 exD 4 (.addr 3)) 0 exD (Prod.ext rfl (by decide)) rfl rfl 3 exD (by decide)
+  revert h
+  decide
+
+/-- renouncing and re-creating, through `run` from genesis: the admin renounces, every later admin
+action (also by the former admin and by the creator) and every re-creation is rejected -/
+example : exResults exG
+    [.create 0 0 0 [.txt "foo"], .mint 0 0 0 exD 9, .chadmin 0 0 0 exD .empty, .mint 0 0 0 exD 1,
+     .burn 0 0 0 exD 1, .chadmin 0 0 0 exD (.addr 0), .setmeta 0 0 0 exD true 4, .wmint 0 exD 1 (.addr 0),
+     .create 0 0 0 [.txt "foo"], .wcreate 0 [.txt "foo"] none] =
+    [.ok, .ok, .ok, .rej .unauth, .rej .unauth, .rej .unauth, .rej .unauth, .rej .unauth,
+     .rej .denomExists, .rej .denomExists] := by decide
+example : (run exG [.create 0 0 0 [.txt "foo"], .mint 0 0 0 exD 9, .chadmin 0 0 0 exD .empty]).admin exD = none ∧
+    ((run exG [.create 0 0 0 [.txt "foo"], .mint 0 0 0 exD 9, .chadmin 0 0 0 exD .empty]).dmeta exD).isSome = true := by
+  decide
 
 /-- the wasm `set_metadata` payload: base omitted or equal to the denomination is accepted … -/
 def exV : Denom := [.txt "factory", .addr 1, .txt "gold"]
